@@ -436,12 +436,18 @@ func TestCollectionSequences(t *testing.T) {
 			case 8: // mutation while iterating
 				inner := vr("inner")
 				var ist zn.Stmt
-				if dict {
+				switch {
+				case g.pick(3, "iterdel") == 0 && dict:
+					// entries removed from a dictionary while it (or a copy of it) is being visited
+					ist = mcall(inner, "移除", key())
+				case g.pick(3, "iterdel2") == 0 && !dict:
+					ist = mcall(inner, []string{"右移", "左移"}[g.pick(2, "iterside")])
+				case dict:
 					ist = &zn.ExprStmt{E: &zn.Assign{Target: &zn.Index{Root: inner, Idx: key()}, E: &zn.Var{Name: "值"}}}
-				} else {
+				default:
 					ist = mcall(inner, "后增", &zn.Var{Name: "值"})
 				}
-				st = &zn.ForEach{Names: []string{"键", "值"}, E: a, Body: []zn.Stmt{ist, &zn.If{Conds: []zn.Expr{&zn.Bin{Op: ">", L: &zn.Member{Root: inner, Name: "长度"}, R: &zn.Num{Val: 12}}}, Blocks: [][]zn.Stmt{{&zn.Break{}}}}}}
+				st = &zn.ForEach{Names: []string{"键", "值"}, E: a, Body: []zn.Stmt{ist, &zn.ExprStmt{E: &zn.Call{Name: "显示", Args: []zn.Expr{&zn.Var{Name: "键"}, &zn.Var{Name: "值"}}}}, &zn.If{Conds: []zn.Expr{&zn.Bin{Op: ">", L: &zn.Member{Root: inner, Name: "长度"}, R: &zn.Num{Val: 12}}}, Blocks: [][]zn.Stmt{{&zn.Break{}}}}}}
 			case 9: // nest one collection in another
 				if dict {
 					st = &zn.ExprStmt{E: &zn.Assign{Target: &zn.Index{Root: a, Idx: key()}, E: vr("nest")}}
